@@ -23,6 +23,7 @@ import (
 type PropCfg struct {
 	Pkgs        []string `json:"pkgs"`
 	Funcs       []string `json:"funcs"`
+	Include     []string `json:"include,omitempty"` // properties whose function lists (and packages) this one also checks: the contracts it relies on
 	SafetyFuncs []string `json:"safety_funcs"` // zero-annotation no-panic sweep (safety obligations only)
 	Safety      bool     `json:"safety"`
 	NoSafety    []string `json:"nosafety_funcs"` // functions of the list whose safety obligations are not claimed (stated in residue)
@@ -76,6 +77,30 @@ func main() {
 	cfg := cfgs[*prop]
 	if cfg == nil {
 		fatal("unknown property %q", *prop)
+	}
+	for _, inc := range cfg.Include {
+		ic := cfgs[inc]
+		if ic == nil {
+			fatal("props.json: %s includes unknown property %q", *prop, inc)
+		}
+		have := map[string]bool{}
+		for _, f := range cfg.Funcs {
+			have[f] = true
+		}
+		for _, f := range ic.Funcs {
+			if !have[f] {
+				cfg.Funcs = append(cfg.Funcs, f)
+			}
+		}
+		hp := map[string]bool{}
+		for _, q := range cfg.Pkgs {
+			hp[q] = true
+		}
+		for _, q := range ic.Pkgs {
+			if !hp[q] {
+				cfg.Pkgs = append(cfg.Pkgs, q)
+			}
+		}
 	}
 	var findings []Finding
 	_ = readJSON(filepath.Join(*verif, "known_findings.json"), &findings)
